@@ -7,6 +7,14 @@ fn main() {
         std::process::exit(2);
     }
     let prop = args[1].clone();
+    // The real code runs in a child process: an abort (allocation failure on an attacker-chosen
+    // length, stack overflow, ...) cannot be caught in-process, and it must become a verdict line
+    // of this check instead of silently killing it.  Not under Miri (no process spawning) and not
+    // for the processes this binary spawns itself.
+    if !cfg!(miri) && !args.iter().any(|a| a == "--child" || a == "--trial") {
+        std::process::exit(supervise(&prop, &args[1..]));
+    }
+    let args: Vec<String> = args.into_iter().filter(|a| a != "--child").collect();
     let mut tier = match std::env::var("VERIF_TIER").as_deref() {
         Ok("thorough") => runner::Tier::Thorough,
         _ => runner::Tier::Quick,
@@ -60,4 +68,55 @@ fn main() {
     runner::install_panic_hook();
     let code = props::dispatch(&prop, tier, seed, only, &rest);
     std::process::exit(code);
+}
+
+/// Runs this binary again as a child, forwards its output, and turns an abnormal death into a
+/// verdict: an abort after "memory allocation of N bytes failed" with an absurd N (>= 2^36, more
+/// than this machine has) is a crash of the code under test on the input it was given (VIOLATION);
+/// any other abnormal death (killed, other signals) is a harness error, never a verdict.
+fn supervise(prop: &str, args: &[String]) -> i32 {
+    use std::io::{BufRead, BufReader};
+    use std::process::{Command, Stdio};
+    let exe = std::env::current_exe().expect("current_exe");
+    let mut child = Command::new(exe).args(args).arg("--child").stderr(Stdio::piped()).spawn().expect("spawn child");
+    let err = child.stderr.take().unwrap();
+    let tail = std::sync::Arc::new(std::sync::Mutex::new(std::collections::VecDeque::<String>::new()));
+    let t2 = tail.clone();
+    let reader = std::thread::spawn(move || {
+        for line in BufReader::new(err).split(b'\n').map_while(Result::ok) {
+            let line = String::from_utf8_lossy(&line).into_owned();
+            eprintln!("{line}");
+            let mut t = t2.lock().unwrap();
+            t.push_back(line);
+            if t.len() > 60 {
+                t.pop_front();
+            }
+        }
+    });
+    let status = child.wait().expect("wait child");
+    let _ = reader.join();
+    if let Some(c) = status.code() {
+        return c;
+    }
+    let tail: Vec<String> = tail.lock().unwrap().iter().cloned().collect();
+    let absurd_alloc = tail.iter().rev().find_map(|l| {
+        let rest = l.split("memory allocation of ").nth(1)?;
+        let n: u128 = rest.split(' ').next()?.parse().ok()?;
+        (n >= 1u128 << 36).then_some(n)
+    });
+    let root = std::env::var("VERIF_ROOT").unwrap_or_else(|_| "/verif".into());
+    let path = format!("{root}/replays/{prop}-abort.json");
+    let _ = std::fs::create_dir_all(format!("{root}/replays"));
+    let doc = serde_json::json!({"property": prop, "args": args, "child_status": format!("{status:?}"), "stderr_tail": tail});
+    let _ = std::fs::write(&path, serde_json::to_string_pretty(&doc).unwrap());
+    match absurd_alloc {
+        Some(n) => {
+            println!("VIOLATION property={prop} replay={path} -- the process running the code under test aborted: memory allocation of {n} bytes failed (a length taken from the input was trusted)");
+            1
+        }
+        None => {
+            println!("HARNESS-ERROR property={prop} the check's child process died abnormally ({status:?}); see {path}");
+            2
+        }
+    }
 }
